@@ -27,6 +27,8 @@ func GoType(sp string, i int) string {
 		return "time.Time"
 	case SpIface:
 		return fmt.Sprintf("I%d", i)
+	case SpCtxLike:
+		return "ictx.Context"
 	case SpAnon:
 		return fmt.Sprintf("struct{ H, X%d uint64 }", i)
 	case SpArray:
@@ -56,6 +58,8 @@ func MkExpr(sp string, i int, h string) string {
 		return fmt.Sprintf("mkT(%s)", h)
 	case SpIface:
 		return fmt.Sprintf("I%d(S%d{H: %s})", i, i, h)
+	case SpCtxLike:
+		return fmt.Sprintf("ictx.Mk(%s)", h)
 	case SpAnon:
 		return fmt.Sprintf("struct{ H, X%d uint64 }{H: %s}", i, h)
 	case SpArray:
@@ -83,6 +87,8 @@ func HashExpr(sp string, i int, v string) string {
 		return fmt.Sprintf("hT(%s)", v)
 	case SpIface:
 		return fmt.Sprintf("hI(%s)", v)
+	case SpCtxLike:
+		return fmt.Sprintf("ictx.Hash(%s)", v)
 	case SpAnon:
 		return fmt.Sprintf("%s.H", v)
 	case SpArray:
@@ -635,6 +641,9 @@ func Render(p *Program, pkg, modPath string) string {
 		for _, s := range p.Flow.Types {
 			if s == SpExt {
 				usesExt = true
+			}
+			if s == SpCtxLike && !strings.Contains(b.String(), "/ext/inner/context\"") {
+				fmt.Fprintf(&b, "\tictx \"%s/ext/inner/context\"\n", modPath)
 			}
 		}
 	}
